@@ -20,8 +20,58 @@ pub enum Op {
     Extend(Vec<u8>),
     Truncate(usize),
     Clear,
-    /// replace the buffer by one collected from these bytes (at most N)
-    FromIter(Vec<u8>),
+    /// replace the buffer by one collected from an iterator over these bytes (at most N); the second
+    /// field selects the iterator adaptor (see `flavoured`), which may yield fewer bytes than it was given
+    FromIter(Vec<u8>, u8),
+}
+
+/// An iterator with a caller-chosen (legal) size hint.
+struct Hinted<I> {
+    inner: I,
+    hint: (usize, Option<usize>),
+}
+
+impl<I: Iterator<Item = u8>> Iterator for Hinted<I> {
+    type Item = u8;
+    fn next(&mut self) -> Option<u8> {
+        self.inner.next()
+    }
+    fn size_hint(&self) -> (usize, Option<usize>) {
+        self.hint
+    }
+}
+
+pub const FLAVOURS: u8 = 12;
+
+/// Iterators of at most `s.len()` bytes with different kinds of `size_hint`: exact, unknown, an upper
+/// bound that is not reached, a lower bound of zero, a huge upper bound. Every one is a legal `Iterator`.
+fn flavoured<'a>(s: &'a [u8], flavour: u8) -> Box<dyn Iterator<Item = u8> + 'a> {
+    let h = s.len() / 2;
+    match flavour % FLAVOURS {
+        0 => Box::new(s.iter().copied()),
+        1 => Box::new(s.to_vec().into_iter()),
+        2 => {
+            let mut i = 0;
+            Box::new(std::iter::from_fn(move || {
+                let r = s.get(i).copied();
+                i += 1;
+                r
+            }))
+        }
+        3 => Box::new(s.iter().copied().filter(|b| b & 1 == 0)),
+        4 => Box::new(s.iter().copied().take_while(|b| *b < 0xc0)),
+        5 => Box::new(s.iter().copied().skip_while(|b| *b < 0x40)),
+        6 => Box::new(s[..h].iter().copied().chain(s[h..].iter().copied())),
+        7 => Box::new(Hinted { inner: s.iter().copied(), hint: (0, Some(usize::MAX)) }),
+        8 => Box::new(Hinted { inner: s.iter().copied(), hint: (0, Some(s.len())) }),
+        9 => Box::new(s.iter().flat_map(|b| if b & 3 == 0 { None } else { Some(*b) })),
+        10 => Box::new(s.iter().map_while(|b| if *b >= 0xe0 { None } else { Some(*b) })),
+        _ => Box::new(s.iter().copied().step_by(2)),
+    }
+}
+
+fn flavour_name(f: u8) -> &'static str {
+    ["slice", "vec", "from_fn", "filter", "take_while", "skip_while", "chain", "hint(0,MAX)", "hint(0,len)", "flat_map", "map_while", "step_by"][(f % FLAVOURS) as usize]
 }
 
 #[derive(Debug, Clone)]
@@ -31,7 +81,7 @@ pub enum OpTok {
     Extend(u16, u64),
     Truncate(u16, bool),
     Clear,
-    FromIter(u16, u64),
+    FromIter(u16, u64, u8),
 }
 
 #[derive(Debug, Clone)]
@@ -55,7 +105,7 @@ fn show_ops(ops: &[Op]) -> String {
             Op::Extend(s) => format!("extend_from_slice({})", hex_short(s, 20)),
             Op::Truncate(k) => format!("truncate({})", k),
             Op::Clear => "clear()".into(),
-            Op::FromIter(s) => format!("from_iter({})", hex_short(s, 20)),
+            Op::FromIter(s, f) => format!("from_iter({} over {})", flavour_name(*f), hex_short(s, 20)),
         })
         .collect::<Vec<_>>()
         .join(", ")
@@ -67,6 +117,7 @@ fn run<B: Buffer + Debug + PartialEq + FromIterator<u8>>(cap: usize, ops: &[Op],
     let mut failed_ops = 0;
     let mut shrink_then_push = false;
     let mut shrunk = false;
+    let mut inexact_hint = false;
     let name = if cap == usize::MAX { "Vec<u8>".to_string() } else { format!("ArrayBuf<{}>", cap) };
     for (idx, op) in ops.iter().enumerate() {
         let before = model.clone();
@@ -111,9 +162,14 @@ fn run<B: Buffer + Debug + PartialEq + FromIterator<u8>>(cap: usize, ops: &[Op],
                 buf.clear();
                 (Ok(()), Ok(()))
             }
-            Op::FromIter(s) => {
-                model = s.clone();
-                buf = s.iter().copied().collect();
+            Op::FromIter(s, f) => {
+                // the model is what the very same iterator yields into a std Vec
+                model = flavoured(s, *f).collect();
+                let (lo, hi) = flavoured(s, *f).size_hint();
+                if hi != Some(model.len()) || lo != model.len() {
+                    inexact_hint = true;
+                }
+                buf = flavoured(s, *f).collect();
                 (Ok(()), Ok(()))
             }
         };
@@ -156,6 +212,9 @@ fn run<B: Buffer + Debug + PartialEq + FromIterator<u8>>(cap: usize, ops: &[Op],
     if shrink_then_push {
         obs.class("shrink-then-grow");
     }
+    if inexact_hint {
+        obs.class("from_iter:inexact-size-hint");
+    }
     obs.nontrivial_if(failed_ops > 0 && shrink_then_push);
     Ok(())
 }
@@ -189,7 +248,7 @@ fn exh_ops() -> Vec<Op> {
 
 impl Prop for C18 {
     const ID: &'static str = "C18";
-    const RULE: &'static str = "stateful / model-based: N in {0,1,2,3,4,5,7,8,16,33,64,255,256} (and the Vec-backed Buffer impl with an unbounded model) x operation histories of length 0..40 over {push(b), extend_from_slice(s) with |s| in 0..=N+3, truncate(k) with k in 0..=N+3 or usize::MAX, clear, from_iter of <= N bytes}; model = Vec<u8> with a capacity check. After every step: same Ok/Err(OutOfMemory), same contents, failing op leaves contents unchanged, Debug / {:x?} equal the slice's, equality with a buffer reached by a different history (incl. one with a stale byte beyond its length), inequality with a shorter / changed buffer. Non-trivial: the history contains a failing operation and a truncate/clear that shrank the buffer followed by a growing operation. Distinct = distinct (N, history).";
+    const RULE: &'static str = "stateful / model-based: N in {0,1,2,3,4,5,7,8,16,33,64,255,256} (and the Vec-backed Buffer impl with an unbounded model) x operation histories of length 0..40 over {push(b), extend_from_slice(s) with |s| in 0..=N+3, truncate(k) with k in 0..=N+3 or usize::MAX, clear, from_iter of <= N bytes through 12 iterator kinds (slice, Vec, from_fn, filter, take_while, skip_while, chain, flat_map, map_while, step_by, and two with a loose but legal size_hint) - the model is what the same iterator yields into a std Vec}; model = Vec<u8> with a capacity check. After every step: same Ok/Err(OutOfMemory), same contents, failing op leaves contents unchanged, Debug / {:x?} equal the slice's, equality with a buffer reached by a different history (incl. one with a stale byte beyond its length), inequality with a shorter / changed buffer. Non-trivial: the history contains a failing operation and a truncate/clear that shrank the buffer followed by a growing operation. Distinct = distinct (N, history).";
     type Case = Case;
     type Input = Input;
 
@@ -203,7 +262,7 @@ impl Prop for C18 {
             4 => (any::<u16>(), any::<u64>()).prop_map(|(l, s)| OpTok::Extend(l, s)),
             3 => (any::<u16>(), prop::bool::weighted(0.1)).prop_map(|(k, max)| OpTok::Truncate(k, max)),
             1 => Just(OpTok::Clear),
-            1 => (any::<u16>(), any::<u64>()).prop_map(|(l, s)| OpTok::FromIter(l, s)),
+            2 => (any::<u16>(), any::<u64>(), 0u8..FLAVOURS).prop_map(|(l, s, f)| OpTok::FromIter(l, s, f)),
         ];
         (any::<u16>(), vec(op, 0..40), prop::bool::weighted(0.1)).prop_map(|(n, ops, vec_backed)| Case { n, ops, vec_backed }).boxed()
     }
@@ -220,7 +279,7 @@ impl Prop for C18 {
                 OpTok::Truncate(_, true) => Op::Truncate(usize::MAX),
                 OpTok::Truncate(k, false) => Op::Truncate(pick(*k, base + 4)),
                 OpTok::Clear => Op::Clear,
-                OpTok::FromIter(l, s) => Op::FromIter(bytes_from(*s, pick(*l, base + 1))),
+                OpTok::FromIter(l, s, f) => Op::FromIter(bytes_from(*s, pick(*l, base + 1)), *f),
             })
             .collect();
         Input { n, ops }
@@ -239,7 +298,7 @@ impl Prop for C18 {
                 Op::Extend(s) => kv.put("op", format!("extend:{}", hex_rle(s))),
                 Op::Truncate(k) => kv.put("op", format!("truncate:{}", k)),
                 Op::Clear => kv.put("op", "clear"),
-                Op::FromIter(s) => kv.put("op", format!("fromiter:{}", hex_rle(s))),
+                Op::FromIter(s, f) => kv.put("op", format!("fromiter@{}:{}", f, hex_rle(s))),
             };
         }
         kv
@@ -256,6 +315,10 @@ impl Prop for C18 {
         let mut ops = Vec::new();
         for o in kv.all("op") {
             let (k, v) = o.split_once(':').unwrap_or((o, ""));
+            let (k, flavour) = match k.split_once('@') {
+                Some((k, f)) => (k, f.parse::<u8>().map_err(|e| e.to_string())?),
+                None => (k, 0),
+            };
             ops.push(match k {
                 "push" => Op::Push(u8::from_str_radix(v, 16).map_err(|e| e.to_string())?),
                 "extend" => Op::Extend(unhex_rle(v)?),
@@ -266,7 +329,7 @@ impl Prop for C18 {
                     if b.len() > n {
                         return Err("from_iter beyond the capacity is a documented panic, not part of the property".into());
                     }
-                    Op::FromIter(b)
+                    Op::FromIter(b, flavour)
                 }
                 _ => return Err(format!("bad op {o}")),
             });
